@@ -1,6 +1,6 @@
 """C01: ordinary cell hash/depth = TON representation hash/depth, through every construction route."""
 from ..gen import cells as G
-from ..translate import arith
+from ..translate import arith, cellctor
 
 SPEC = dict(
     manifest=dict(
@@ -9,7 +9,9 @@ SPEC = dict(
         level_note='Trusted: Lean kernel (propext, Classical.choice, Quot.sound), Model/Cell.lean as a faithful hand transcription of cell.py/exotic.py (checked only by sampled correspondence: ~29k node observations per quick run incl. every bit-length class and depth 1022-1025 chains), bitarray/hashlib semantics, the Python harness.',
         technique='Lean 4 refinement proof (hand model) + differential correspondence with the library + source-regenerated arithmetic lemmas',
     ),
-    translators=[('cell.py d1/d2/depth-limit->Generated/CellArith.lean', arith.regenerator('CellArith'))],
+    translators=[('cell.py d1/d2/depth-limit->Generated/CellArith.lean', arith.regenerator('CellArith')),
+                 ('exotic.py LevelMask->Generated/LevelMask.lean', arith.regenerator('LevelMask')),
+                 ('cell.py Cell.__init__/resolve_mask/calculate_hashes/get_data_bytes->Generated/CellCtor.lean', cellctor.regenerate)],
     design_ref='DESIGN.md §6 C01',
     rule='ordinary-cell DAGs: every bit length class (all 1024 lengths in thorough), 0-4 refs, sharing, chains to depth 1022/1023/1024; '
          'each node observed through routes ctor/plain-bitarray/builder/boc/copy/slice/to_builder; distinct = distinct (dag, node, route); '
@@ -175,6 +177,21 @@ def src_search(ctx):
     for pt in found.get('depthTooLarge') or []:
         if 1 <= pt['depth'] <= 1100:
             check_dag(ctx, G.chain(pt['depth'], '', 1), f'src-chain{pt["depth"]}', derive=False, routes=['ctor'])
+    if len(ctx.failures) > n0:
+        return True
+    # the cells on which the REGENERATED constructor (Generated/CellCtor.lean) and the hand model differ
+    rng = ctx.rng
+    leaf = (G.ORD, '101', ())
+    dags = [(f'len{n}refs{n % 5}', [leaf, (G.ORD, G.rand_bits(rng, n), tuple([0] * (n % 5)))]) for n in sorted(set(G.BOUNDARY_LENS) | set(range(0, 26)))]
+    dags += [(f'dag{t}', G.gen_ordinary_dag(rng, rng.randrange(2, 10), deep=t % 2 == 0)) for t in range(12)]
+    dags += [(f'chain{d}x{w}', G.chain(d, '', w)) for d in (1, 2, 1022, 1023, 1024) for w in (1, 2)]
+    dags += [(t, n) for t, n in cellctor.validation_dags() if all(k == G.ORD for k, _, _ in n)]
+    found = cellctor.diff_dags(ctx, dags)
+    found.sort(key=lambda f: sum(len(n[1]) for n in f[1]))
+    for tag, nodes, idx in found[:40]:
+        check_dag(ctx, nodes[:max(idx) + 1], f'src-ctor-{tag}', derive=False, routes=['ctor'])
+        if len(ctx.failures) > n0 + 3:
+            break
     return len(ctx.failures) > n0
 
 
